@@ -28,15 +28,41 @@ LEN_POOL = [1, 2, 3, 4, 15, 16, 17, 31, 32, 33, 48, 100, 250, 251, 252, 253, 254
 LL_POOL = [1, 2, 3, 4, 8, 15, 31, 32, 64, 100, 249, 250, 251, 252, 253, 254]
 
 
-def rec_bytes(cpu, seg, gran, start, data):
-    return bytes([0x81, cpu, seg, gran]) + struct.pack("<IH", start & 0xffffffff, len(data)) + data
+def rec_bytes(cpu, seg, gran, start, data, short=False):
+    """long form `$81 cpu seg gran`, or the one-byte legacy form (doc/file-formats.md: header $01..$7f = processor type,
+    segment CODE, granularity implied by the processor type)"""
+    head = bytes([cpu]) if short else bytes([0x81, cpu, seg, gran])
+    return head + struct.pack("<IH", start & 0xffffffff, len(data)) + data
 
 
-def pfile(items, creator=b"AS 1.42 verif"):
+def gran_table():
+    """{family id: granularity in CODE} of the families whose implied granularity is not 1, read from the generated Lean
+    table (translate/tables.py gen_fileformat: toolutils.c Granularity() tabulated)"""
+    global _GRANTAB
+    try:
+        return _GRANTAB
+    except NameError:
+        pass
+    import re
+    _GRANTAB = {}
+    p = os.path.join(common.LEAN_DIR, "AslModel", "Generated", "FileFormat.lean")
+    for m in re.finditer(r"^\s*\|\s*(\d+)\s*=>\s*(?:if seg = 1 then\s*)?(\d+)", open(p).read(), re.M):
+        if int(m.group(2)) != 1:
+            _GRANTAB[int(m.group(1))] = int(m.group(2))
+    return _GRANTAB
+
+
+def short_legal(it):
+    """may this item be written with the short header (a reader reconstructs the same fields)?"""
+    return it[0] == "d" and it[2] == 1 and 0 < it[1] < 0x80 and it[3] == gran_table().get(it[1], 1)
+
+
+def pfile(items, creator=b"AS 1.42 verif", short=()):
+    """`short`: indices of the items written with the one-byte record header"""
     out = b"\x89\x14"
-    for it in items:
+    for k, it in enumerate(items):
         if it[0] == "d":
-            out += rec_bytes(*it[1:])
+            out += rec_bytes(*it[1:], short=k in short)
         else:
             out += b"\x80" + struct.pack("<I", it[1])
     return out + b"\x00" + creator
@@ -110,14 +136,16 @@ def eff_items(files):
 
 
 def files_json(files):
-    return [dict(items=[list(it[:5]) + [it[5].hex()] if it[0] == "d" else list(it) for it in f["items"]], off=f["off"], offtext=f["offtext"])
+    return [dict(items=[list(it[:5]) + [it[5].hex()] if it[0] == "d" else list(it) for it in f["items"]], off=f["off"], offtext=f["offtext"],
+                 **{k: f[k] for k in ("short", "bind") if f.get(k)})
             for f in files]
 
 
 def files_from_json(d):
     conv = lambda its: [tuple(x[:5]) + (bytes.fromhex(x[5]),) if x[0] == "d" else tuple(x) for x in its]
     if "files" in d:
-        return [dict(items=conv(f["items"]), off=f.get("off", 0), offtext=f.get("offtext")) for f in d["files"]]
+        return [dict(items=conv(f["items"]), off=f.get("off", 0), offtext=f.get("offtext"), short=f.get("short", []), bind=f.get("bind", False))
+                for f in d["files"]]
     return one_file(conv(d["items"]))
 
 
@@ -136,19 +164,33 @@ def family_default(cpu):
     return _FAMTAB.get(cpu)
 
 
-def gen_case(rng, idx, multi=False):
-    """structured generator: (files, opts, tags); files = [dict(items, off, offtext)] in command line order.
+def gen_case(rng, idx, multi=False, legacy=False):
+    """structured generator: (files, opts, tags); files = [dict(items, off, offtext[, short, bind])] in command line order.
     multi: the class 'several source arguments / address offsets name(offset)': 1-3 code files, each moved by an offset in
-    one of the documented notations (also negative), with automatic, half-automatic and explicit windows, -a, -R."""
+    one of the documented notations (also negative), with automatic, half-automatic and explicit windows, -a, -R.
+    legacy: the class 'code files with SHORT record headers' (asl never writes them: they come from BIND / ALINK or an old AS):
+    CODE records of any family of the granularity table (and of byte-addressed families), written with the one-byte header
+    by the harness (all or a random subset of the records) or sent through the real pbind first; every format incl. the
+    family's default."""
     o = default_opts()
     tags = []
     fmt = rng.choice(["moto", "moto", "intel", "intel", "intel16", "intel32", "intel32", "mos", "mos", "tek", "atmel", "c"])
     cpu, gran = rng.choice(FAMS)
-    if fmt == "atmel":
+    if legacy:
+        gt = gran_table()
+        family_default(0)
+        if rng.random() < 0.7:
+            cpu = rng.choice(sorted(gt))
+        else:
+            cpu = rng.choice([c for c in sorted(_FAMTAB) if 0 < c < 0x80 and c not in gt])
+        gran = gt.get(cpu, 1)
+        if fmt == "atmel" and gran > 2:
+            fmt = rng.choice(["moto", "intel", "intel32", "mos", "tek", "c"])
+    elif fmt == "atmel":
         cpu, gran = rng.choice([(0x3b, 2), (0x3b, 2), (0x3d, 1)])
     elif rng.random() < 0.75:
         cpu, gran = rng.choice([f for f in FAMS if f[1] == 1])
-    use_default = rng.random() < 0.2
+    use_default = rng.random() < (0.35 if legacy else 0.2)
     if use_default:
         d = family_default(cpu)
         if d in FMT_CLI:
@@ -163,7 +205,7 @@ def gen_case(rng, idx, multi=False):
         fmax = min(fmax, 0x3fff)            # word targets: stay inside the first bank (bank arithmetic with Gran>1 not exercised)
         tags.append("gran%d" % gran)
     seg = 1
-    if rng.random() < 0.1:
+    if rng.random() < 0.1 and not legacy:
         seg = rng.choice([2, 4])
         o["seg"] = seg
         tags.append("segment")
@@ -346,6 +388,20 @@ def gen_case(rng, idx, multi=False):
     if fmt == "c" and rng.random() < 0.5:
         o["cformat"] = rng.choice(["DSEL", "dsel", "sld", "Ds"] + (["eD"] if gran == 1 else []))
         tags.append("cformat")
+    if legacy:
+        for f in files:
+            ok = [k for k, it in enumerate(f["items"]) if short_legal(it)]
+            r = rng.random()
+            if r < 0.3:
+                f["bind"] = True            # the real pbind rewrites the headers (short where it is legal)
+                tags.append("via-pbind")
+            elif r < 0.75 or len(ok) < 2:
+                f["short"] = ok
+                tags.append("short-all")
+            else:
+                f["short"] = sorted(rng.sample(ok, rng.randrange(1, len(ok))))
+                tags.append("short-mixed")
+        tags.append("short-header")
     return files, o, [fmt] + tags
 
 
@@ -379,6 +435,16 @@ def corpus_cases():
     cs.append(([f(hi, 0x1000, "1000h"), f(lo, 0, None)], dict(d, fmt="moto", start=0, wild="0x"), ["moto", "files", "corpus:two-files-first-moved-0-auto"]))
     cs.append(([f(lo, -0x80, "-128"), f(hi, 0x10, "16")], dict(d, fmt="mos", stop=0x200), ["mos", "files", "corpus:offset-negative-auto-stop"]))
     cs.append(([f(lo, 8, "8")], dict(d, fmt="intel32", reloc=0x20000, rel=True, rauto=True), ["intel32", "files", "corpus:offset-rel-reloc"]))
+    # code files with short record headers (doc/file-formats.md: header $01..$7f), as BIND / ALINK / old AS versions write them
+    pic = [("d", 0x70, 1, 2, 0x100, bytes(range(1, 41))), ("d", 0x70, 1, 2, 0x180, bytes([0x34, 0x12, 0x45, 0x23]))]
+    c3x = [("d", 0x76, 1, 4, 0x200, bytes(range(1, 41)))]
+    z80 = [("d", 0x51, 1, 1, 0x8000, bytes(range(1, 41))), ("e", 0x8000)]
+    g = lambda items, **kw: dict(items=items, off=0, offtext=None, **kw)
+    cs.append(([g(pic, short=[0, 1])], dict(d), ["intel", "gran2", "short-header", "corpus:short-pic-default"]))
+    cs.append(([g(pic, bind=True)], dict(d, fmt="intel", mm=2), ["intel", "gran2", "short-header", "via-pbind", "corpus:bind-pic-inhx8l"]))
+    cs.append(([g(pic, short=[1])], dict(d, fmt="moto"), ["moto", "gran2", "short-header", "corpus:short-mixed-pic-moto"]))
+    cs.append(([g(c3x, short=[0])], dict(d, fmt="intel32", ll=8), ["intel32", "gran4", "short-header", "corpus:short-c3x-intel32"]))
+    cs.append(([g(z80, bind=True)], dict(d), ["intel", "short-header", "via-pbind", "corpus:bind-z80-default"]))
     return cs
 
 
@@ -465,8 +531,18 @@ def run_case(bdir, wd, idx, files, o):
     srcs, names, req = [], [], []
     for k, f in enumerate(files):
         name = "c%d.p" % idx if len(files) == 1 else "c%d_%d.p" % (idx, k)
-        fb = pfile(f["items"])
+        fb = pfile(f["items"], short=f.get("short") or ())
         open(os.path.join(wd, name), "wb").write(fb)
+        if f.get("bind"):       # the code file as the real BIND rewrites it
+            src = name + ".in"
+            os.rename(os.path.join(wd, name), os.path.join(wd, src))
+            brc, bso, bse = common.run_tool(bdir, "pbind", ["-q", os.path.join(wd, src), os.path.join(wd, name)], wd, timeout=60)
+            os.unlink(os.path.join(wd, src))
+            if brc != 0 or not os.path.exists(os.path.join(wd, name)):
+                for n in names:
+                    os.unlink(os.path.join(wd, n))
+                return "-", ["pbind", "-q", src, name], brc if brc != 0 else 1, bso, b"pbind: " + bse, None
+            fb = open(os.path.join(wd, name), "rb").read()
         names.append(name)
         srcs.append(name + ("(%s)" % f["offtext"] if f["offtext"] is not None else ""))
         req.append(fb.hex() + ("@%d" % f["off"] if f["off"] else ""))
@@ -508,12 +584,13 @@ def sig_for(items, o, tags, kv, out_lines, quirks):
 
 def run(args):
     res = common.Result("C06", args.tier, args.seed, "proof")
-    bdir, audit, proof_problems = common.standard_setup(res, "C06", ["FileFormat", "Families"])
+    bdir, audit, proof_problems = common.standard_setup(res, "C06", ["FileFormat", "Families", "ListParams"])
     if bdir is None:
         return res.finish()
     ok = not any(p.startswith("driver does not build") for p in proof_problems)
     n_gen = {"quick": 1400, "thorough": 20000}[args.tier]
     n_files = {"quick": 450, "thorough": 4000}[args.tier]       # class: several source arguments / offsets name(offset)
+    n_legacy = {"quick": 260, "thorough": 2500}[args.tier]      # class: short record headers (hand-made and via the real pbind)
     rng = common.rng_for(args.seed, "C06")
     spec_fail, corr_fail, samples = [], [], []
     dist = {}
@@ -533,6 +610,22 @@ def run(args):
         rng_f = common.rng_for(args.seed, "C06-files")
         for i in range(n_files):
             cases.append(gen_case(rng_f, i, multi=True))
+        rng_l = common.rng_for(args.seed, "C06-legacy")
+        for i in range(n_legacy):
+            cases.append(gen_case(rng_l, i, multi=rng_l.random() < 0.25, legacy=True))
+        # every family of the granularity table once with the short header and once through pbind, at a non-zero address, in the
+        # family's default format (S-records when the family has none in the model)
+        family_default(0)
+        for cpu, g in sorted(gran_table().items()):
+            if not 0 < cpu < 0x80:
+                continue
+            a = rng_l.choice([0x10, 0x100, 0x123, 0x800, 0x1000])
+            its = [("d", cpu, 1, g, a, bytes(rng_l.randrange(256) for _ in range(g * rng_l.choice([3, 8, 9, 20]))))]
+            dflt = family_default(cpu) in FMT_CLI and not (family_default(cpu) == "atmel" and g > 2)
+            fname = family_default(cpu) if dflt else "moto"
+            for kw, t in ((dict(short=[0]), "short-all"), (dict(bind=True), "via-pbind")):
+                cases.append(([dict(items=its, off=0, offtext=None, **kw)], dict(default_opts(), fmt="default" if dflt else "moto"),
+                              [fname, "gran%d" % g, "short-header", t, "gran-table"]))
         # default format over the whole family table (documented: chosen by processor type)
         fam_ok = 0
         fam_reqs = []       # (family id, items, first line of the real output without -F) -> driver mode c06fam
@@ -553,7 +646,7 @@ def run(args):
         for idx, (files, o, tags) in enumerate(cases):
             fb, a, rc, so, se, out = run_case(bdir, wd, idx, files, o)
             if rc != 0 or out is None:
-                spec_fail.append(dict(tag=tags, why="p2hex failed on a well-formed code file: rc=%s %s" % (rc, (so + se).decode(errors="replace")[-300:]),
+                spec_fail.append(dict(tag=tags, why="%s failed on a well-formed code file: rc=%s %s" % ("pbind (preparing the input)" if a[:1] == ["pbind"] else "p2hex", rc, (so + se).decode(errors="replace")[-300:]),
                                       files=files_json(files), opts=o, cmd=a))
                 continue
             reqs.append("%s %s %s" % (fb, out.hex() if out else "-", req_opts(o, quirks)))
@@ -573,7 +666,8 @@ def run(args):
             n_cells += int(kv.get("ncells", 0))
             out_lines = out.decode("latin1").split("\n")[:-1]
             key = (tags[0], o["ll"], len(items), o["rel"], o["reloc"] != 0, o["start"] != "auto", int(kv.get("nlines", 0)),
-                   len(files), tuple(f["off"] != 0 for f in files), o["stop"] != "auto")
+                   len(files), tuple(f["off"] != 0 for f in files), o["stop"] != "auto",
+                   tuple((bool(f.get("short")), bool(f.get("bind"))) for f in files))
             if int(kv.get("nlines", 0)) >= 3:
                 distinct.add(key)
             if len(samples) < 4 and len(out_lines) >= 4 and "corpus" not in " ".join(tags) and tags[0] not in [s["tag"][0] for s in samples]:
@@ -604,6 +698,8 @@ def run(args):
                 spec_fail.append(dict(sig=sig, why=failed, rejected_line=line, verdict=ans[:300], **case))
             if kv.get("model") != "eq":
                 corr_fail.append(dict(why="real p2hex text differs from the model's text", verdict=ans[:600], **case))
+            if kv.get("reader", "eq") != "eq":
+                corr_fail.append(dict(why="the model of the record loop (ReadRecordHeader) reads other items than the documented reader", verdict=ans[:300], **case))
             if kv.get("model") == "eq" and (kv.get("mdecode"), kv.get("mcells")) != (kv.get("decode"), kv.get("cells")):
                 proof_problems.append("driver-internal: verdict on identical texts differs")
         # default format per family: SPEC (manual's sentence + documented family ids, Spec/HexFamilies.lean) on the real output
@@ -630,13 +726,15 @@ def run(args):
 
     res.coverage = common.proof_coverage(audit, "C06", [
         "translate/tables.py (headids.c family table + tHexFormat enumerators via compiled dumper)",
-        "correspondence: real p2hex vs Model.P2Hex on generated code files (differential test)",
+        "correspondence: real p2hex vs Model.P2HexRead (record loop over the model of ReadRecordHeader, short and long headers) + Model.P2Hex on generated code files (differential test)",
         "quirk probe: three flags of the model (MOS running sum, MOS constant last record, Tektronix byte sums) are set from a probe run of the real binary"])
     res.coverage.update(
         evaluations=len(reqs), distinct_nontrivial=len(distinct),
         rule="hand-built code files (1-4 records, lengths around line/256/64K limits, addresses around 64 KiB/1 MiB/16 MiB/2^31) x formats x -r/-a/-R/-l/-e/-i/-m/-M/+5/-s/-avrlen/-segment/-cformat, plus every family of headids.c with its default format; "
              "plus the class 'source arguments': 1-3 code files per call, each optionally name(offset) (decimal, 0x.., $.., ..h, negative), with automatic (-r $-$ / 0x-0x / default), half-automatic (0-$, $-0x..) and explicit windows, -a, -R, every format; "
-             "non-trivial = at least 3 output lines; distinct by (format, line length, #items, -a, -R used, window start/stop given, #lines, #files, which files carry an offset)",
+             "plus the class 'short record headers' (doc/file-formats.md $01..$7f; written by BIND/ALINK/old AS, never by asl): CODE records of every family of the granularity table "
+             "(70 %) and of byte-addressed families, header form per record short / mixed short+long / rewritten by the real pbind, all formats and the family default, 1-3 files with offsets; "
+             "non-trivial = at least 3 output lines; distinct by (format, line length, #items, -a, -R used, window start/stop given, #lines, #files, which files carry an offset, header form per file)",
         samples=samples, distribution=dict(sorted(dist.items())), hex_lines_checked=n_lines, cells_decoded=n_cells,
         quirk_probe=dict(mosCarry=quirks[0], mosConst4=quirks[1], tekByteSums=quirks[2]), families_without_model_checked_by_first_line=fam_ok)
     res.assumptions = ["TI-DSK and Mico8 output, -f filter, wildcards in source arguments, -d, -k, overlap warnings are outside the model; the parser of the offset notation (ConstLongInt) is exercised through the real program only (model and spec receive the value)",
